@@ -128,108 +128,233 @@ pub fn new_and_views(r: &Report) {
             }
         }
     }
+    // Debug / Display: must not panic; distinct values counted (non-vacuity
+    // only - the formats belong to C15)
+    let mut texts = std::collections::BTreeSet::new();
+    let mut values = std::collections::BTreeSet::new();
+    for (n, d) in pool() {
+        values.insert(n);
+        match guard(|| format!("{:?}|{}|{:#}", d, d, d)) {
+            Err(p) => r.viol("sd_new", &format!("SignedDuration::fmt/{}", panic_sig(&p)), ds(n), p),
+            Ok(t) => {
+                texts.insert(t);
+            }
+        }
+    }
+    r.outcome("sd_distinct_values", values.len() as u64);
+    r.outcome("sd_distinct_debug_display_texts(informative)", texts.len() as u64);
     r.sample(json!({"new": [i64::MIN, 1_999_999_999], "model_ns": (i64::MIN as i128 * NS + 1_999_999_999).to_string()}));
 }
 
-/// All ordered pairs: add, sub (checked, saturating, operators), comparisons.
+/// Every two-operand operation on one ordered pair.
+fn pair_ops(r: &Report, (na, a): (i128, SignedDuration), (nb, b): (i128, SignedDuration)) -> [u64; 4] {
+    let case = || format!("a={} b={}", ds(na), ds(nb));
+    let mut t_add = [0u64; 2];
+    let mut t_sub = [0u64; 2];
+    let rhs_min = nb / NS == i64::MIN as i128;
+    let class_sub = if rhs_min { "rhs.secs==i64::MIN" } else { "" };
+    r.add_states(1);
+    r.add_transitions(12);
+    r.add_validated(12);
+    cmp_checked(r, "sd_pairs", "checked_add", "", &case, guard(|| a.checked_add(b)), Some(na + nb), &mut t_add);
+    cmp_checked(r, "sd_pairs", "checked_sub", class_sub, &case, guard(|| a.checked_sub(b)), Some(na - nb), &mut t_sub);
+    let mut scratch = [0u64; 2];
+    cmp_panicking(r, "sd_pairs", "add(operator)", "", &case, guard(|| a + b), Some(na + nb), &mut scratch);
+    cmp_panicking(r, "sd_pairs", "sub(operator)", class_sub, &case, guard(|| a - b), Some(na - nb), &mut scratch);
+    // compound assignment and Sum (owned items / references): panic exactly
+    // like the operators
+    cmp_panicking(
+        r,
+        "sd_pairs",
+        "add_assign",
+        "",
+        &case,
+        guard(|| {
+            let mut x = a;
+            x += b;
+            x
+        }),
+        Some(na + nb),
+        &mut scratch,
+    );
+    cmp_panicking(
+        r,
+        "sd_pairs",
+        "sub_assign",
+        class_sub,
+        &case,
+        guard(|| {
+            let mut x = a;
+            x -= b;
+            x
+        }),
+        Some(na - nb),
+        &mut scratch,
+    );
+    cmp_panicking(r, "sd_pairs", "sum(owned)", "", &case, guard(|| [a, b].into_iter().sum::<SignedDuration>()), Some(na + nb), &mut scratch);
+    cmp_panicking(r, "sd_pairs", "sum(refs)", "", &case, guard(|| [a, b].iter().sum::<SignedDuration>()), Some(na + nb), &mut scratch);
+    for (op, class, got, exact) in [
+        ("saturating_add", "", guard(|| a.saturating_add(b)), na + nb),
+        ("saturating_sub", class_sub, guard(|| a.saturating_sub(b)), na - nb),
+    ] {
+        let suffix = if class.is_empty() { String::new() } else { format!(":{}", class) };
+        match got {
+            Err(pn) => r.viol("sd_pairs", &format!("SignedDuration::{}/{}{}", op, panic_sig(&pn), suffix), case(), pn),
+            Ok(d) => {
+                if let Ok(Some(detail)) = guard(|| judge(d, sat(exact))) {
+                    let kind = if fits(exact) { "value" } else { "saturation-value" };
+                    r.viol("sd_pairs", &format!("SignedDuration::{}/{}{}", op, kind, suffix), case(), format!("{} (exact {} ns)", detail, exact));
+                }
+            }
+        }
+    }
+    // comparisons
+    let res = guard(|| {
+        let mut bad: Vec<&'static str> = vec![];
+        if (a == b) != (na == nb) || (a != b) != (na != nb) {
+            bad.push("eq");
+        }
+        if a.cmp(&b) != na.cmp(&nb) {
+            bad.push("cmp");
+        }
+        if a.partial_cmp(&b) != Some(na.cmp(&nb)) {
+            bad.push("partial_cmp");
+        }
+        if (a < b) != (na < nb) || (a >= b) != (na >= nb) || (a > b) != (na > nb) || (a <= b) != (na <= nb) {
+            bad.push("lt/ge");
+        }
+        if a.max(b) != if na >= nb { a } else { b } || a.min(b) != if na <= nb { a } else { b } {
+            bad.push("max/min");
+        }
+        if na == nb && hash_of(&a) != hash_of(&b) {
+            bad.push("hash");
+        }
+        bad
+    });
+    match res {
+        Err(pn) => r.viol("sd_pairs", &format!("SignedDuration::cmp/{}", panic_sig(&pn)), case(), pn),
+        Ok(bad) => {
+            for b in bad {
+                r.viol("sd_pairs", &format!("SignedDuration::{}/value", b), case(), format!("model {:?}", na.cmp(&nb)));
+            }
+        }
+    }
+    [t_add[0], t_add[1], t_sub[0], t_sub[1]]
+}
+
+/// All ordered pairs: add, sub (checked, saturating, operators, compound
+/// assignment, Sum), comparisons. Besides the Cartesian square of the pool,
+/// every pool value `a` is paired with the partners that put the exact sum
+/// and the exact difference on and one nanosecond beyond each end of the
+/// representable range (`a + b` and `a - b` in {MAX, MAX + 1 ns, MIN,
+/// MIN - 1 ns}), in both operand orders.
 pub fn pairs(r: &Report) {
     let p = pool();
     r.count("sd_pool_values", p.len() as u64);
-    let idx: Vec<(usize, usize)> = (0..p.len()).flat_map(|i| (0..p.len()).map(move |j| (i, j))).collect();
-    let tallies: Vec<[u64; 4]> = idx
-        .par_iter()
-        .map(|&(i, j)| {
-            let (na, a) = p[i];
-            let (nb, b) = p[j];
-            let case = || format!("a={} b={}", ds(na), ds(nb));
-            let mut t_add = [0u64; 2];
-            let mut t_sub = [0u64; 2];
-            let rhs_min = nb / NS == i64::MIN as i128;
-            let class_sub = if rhs_min { "rhs.secs==i64::MIN" } else { "" };
-            r.add_states(1);
-            r.add_transitions(8);
-            r.add_validated(8);
-            cmp_checked(r, "sd_pairs", "checked_add", "", &case, guard(|| a.checked_add(b)), Some(na + nb), &mut t_add);
-            cmp_checked(r, "sd_pairs", "checked_sub", class_sub, &case, guard(|| a.checked_sub(b)), Some(na - nb), &mut t_sub);
-            let mut scratch = [0u64; 2];
-            cmp_panicking(r, "sd_pairs", "add(operator)", "", &case, guard(|| a + b), Some(na + nb), &mut scratch);
-            cmp_panicking(r, "sd_pairs", "sub(operator)", class_sub, &case, guard(|| a - b), Some(na - nb), &mut scratch);
-            for (op, class, got, exact) in [
-                ("saturating_add", "", guard(|| a.saturating_add(b)), na + nb),
-                ("saturating_sub", class_sub, guard(|| a.saturating_sub(b)), na - nb),
-            ] {
-                let suffix = if class.is_empty() { String::new() } else { format!(":{}", class) };
-                match got {
-                    Err(pn) => r.viol("sd_pairs", &format!("SignedDuration::{}/{}{}", op, panic_sig(&pn), suffix), case(), pn),
-                    Ok(d) => {
-                        if let Ok(Some(detail)) = guard(|| judge(d, sat(exact))) {
-                            let kind = if fits(exact) { "value" } else { "saturation-value" };
-                            r.viol("sd_pairs", &format!("SignedDuration::{}/{}{}", op, kind, suffix), case(), format!("{} (exact {} ns)", detail, exact));
-                        }
+    let mut idx: Vec<((i128, SignedDuration), (i128, SignedDuration))> = (0..p.len()).flat_map(|i| (0..p.len()).map(move |j| (i, j))).map(|(i, j)| (p[i], p[j])).collect();
+    let mut derived = 0u64;
+    for &(na, a) in &p {
+        for t in [HI, HI + 1, LO, LO - 1, 0, 1, -1] {
+            for nb in [t - na, na - t] {
+                if fits(nb) {
+                    if let Ok(b) = guard(|| SignedDuration::new((nb / NS) as i64, (nb % NS) as i32)) {
+                        derived += 2;
+                        idx.push(((na, a), (nb, b)));
+                        idx.push(((nb, b), (na, a)));
                     }
                 }
             }
-            // comparisons
-            let res = guard(|| {
-                let mut bad: Vec<&'static str> = vec![];
-                if (a == b) != (na == nb) {
-                    bad.push("eq");
-                }
-                if a.cmp(&b) != na.cmp(&nb) {
-                    bad.push("cmp");
-                }
-                if a.partial_cmp(&b) != Some(na.cmp(&nb)) {
-                    bad.push("partial_cmp");
-                }
-                if (a < b) != (na < nb) || (a >= b) != (na >= nb) {
-                    bad.push("lt/ge");
-                }
-                if na == nb && hash_of(&a) != hash_of(&b) {
-                    bad.push("hash");
-                }
-                bad
-            });
-            match res {
-                Err(pn) => r.viol("sd_pairs", &format!("SignedDuration::cmp/{}", panic_sig(&pn)), case(), pn),
-                Ok(bad) => {
-                    for b in bad {
-                        r.viol("sd_pairs", &format!("SignedDuration::{}/value", b), case(), format!("model {:?}", na.cmp(&nb)));
-                    }
-                }
-            }
-            [t_add[0], t_add[1], t_sub[0], t_sub[1]]
-        })
-        .collect();
+        }
+    }
+    r.outcome("sd_pairs_cartesian", (p.len() * p.len()) as u64);
+    r.outcome("sd_pairs_boundary_partners", derived);
+    let tallies: Vec<[u64; 4]> = idx.par_iter().map(|&(x, y)| pair_ops(r, x, y)).collect();
     let mut t = [0u64; 4];
     for x in tallies {
         for k in 0..4 {
             t[k] += x[k];
         }
     }
+    // Sum of nothing is zero
+    r.add_validated(2);
+    match guard(|| (Vec::<SignedDuration>::new().into_iter().sum::<SignedDuration>(), Vec::<SignedDuration>::new().iter().sum::<SignedDuration>(), SignedDuration::default())) {
+        Err(pn) => r.viol("sd_pairs", &format!("SignedDuration::sum(empty)/{}", panic_sig(&pn)), "empty", pn),
+        Ok((x, y, z)) => {
+            for (name, d) in [("sum(empty,owned)", x), ("sum(empty,refs)", y), ("default", z)] {
+                if let Ok(Some(detail)) = guard(|| judge(d, 0)) {
+                    r.viol("sd_pairs", &format!("SignedDuration::{}/value", name), "empty", detail);
+                }
+            }
+        }
+    }
     r.outcome("checked_add_some", t[0]);
     r.outcome("checked_add_none", t[1]);
     r.outcome("checked_sub_some", t[2]);
     r.outcome("checked_sub_none", t[3]);
-    r.require(t[0] > 0 && t[1] > 0 && t[2] > 0 && t[3] > 0, "add/sub both succeed and overflow on the pool");
+    r.require(t[0] > 0 && t[1] > 0 && t[2] > 0 && t[3] > 0 && derived > 0, "add/sub both succeed and overflow on the pool");
     r.sample(json!({"checked_sub": {"a": ds(LO), "b": ds(LO)}, "model": ds(0)}));
 }
 
-/// pool x i32 factors: checked_mul, saturating_mul, checked_div, operators.
+/// pool x i32 factors: checked_mul, saturating_mul, checked_div, operators
+/// and compound assignment. For every factor the pool is extended by the
+/// durations whose exact product lies on and one nanosecond-step beyond each
+/// end of the range (floor/ceil of MAX / f and MIN / f, and their
+/// neighbours).
 pub fn scalar(r: &Report) {
-    let factors: [i32; 14] = [0, 1, -1, 2, -2, 3, 7, 1_000, -1_000, 1_000_000_007, i32::MAX, i32::MIN, i32::MIN + 1, -7];
-    let mut t_mul = [0u64; 2];
-    let mut t_div = [0u64; 2];
-    let mut scratch = [0u64; 2];
-    for (n, d) in pool() {
-        for f in factors {
+    let mut factors: Vec<i32> = vec![0, 1, -1, 2, -2, 3, 7, 1_000, -1_000, 1_000_000_007, i32::MAX, i32::MIN, i32::MIN + 1, -7];
+    if r.thorough() {
+        factors.extend([4, -3, 10, 60, -60, 3_600, 86_400, 999_999_999, 1_000_000_000, -1_000_000_000, 1_000_000_001, 65_536, -65_537, i32::MAX - 1]);
+    }
+    let base = pool();
+    let mut cases: Vec<((i128, SignedDuration), i32)> = vec![];
+    let mut derived = 0u64;
+    for &f in &factors {
+        for &x in &base {
+            cases.push((x, f));
+        }
+        if f != 0 {
+            for t in [HI, LO] {
+                let q = t / f as i128;
+                for n in [q - 1, q, q + 1] {
+                    if fits(n) {
+                        if let Ok(d) = guard(|| SignedDuration::new((n / NS) as i64, (n % NS) as i32)) {
+                            derived += 1;
+                            cases.push(((n, d), f));
+                        }
+                    }
+                }
+            }
+        }
+    }
+    r.outcome("sd_scalar_boundary_inputs", derived);
+    let tallies: Vec<[u64; 4]> = cases
+        .par_iter()
+        .map(|&((n, d), f)| {
+            let mut t_mul = [0u64; 2];
+            let mut t_div = [0u64; 2];
+            let mut scratch = [0u64; 2];
             let case = || format!("d={} rhs={}", ds(n), f);
             r.add_states(1);
-            r.add_transitions(6);
-            r.add_validated(6);
+            r.add_transitions(8);
+            r.add_validated(8);
             let prod = n * f as i128;
             cmp_checked(r, "sd_scalar", "checked_mul", "", &case, guard(|| d.checked_mul(f)), Some(prod), &mut t_mul);
             cmp_panicking(r, "sd_scalar", "mul(operator)", "", &case, guard(|| d * f), Some(prod), &mut scratch);
             cmp_panicking(r, "sd_scalar", "mul(operator,i32*d)", "", &case, guard(|| f * d), Some(prod), &mut scratch);
+            cmp_panicking(
+                r,
+                "sd_scalar",
+                "mul_assign",
+                "",
+                &case,
+                guard(|| {
+                    let mut x = d;
+                    x *= f;
+                    x
+                }),
+                Some(prod),
+                &mut scratch,
+            );
             match guard(|| d.saturating_mul(f)) {
                 Err(p) => r.viol("sd_scalar", &format!("SignedDuration::saturating_mul/{}", panic_sig(&p)), case(), p),
                 Ok(g) => {
@@ -241,15 +366,37 @@ pub fn scalar(r: &Report) {
             }
             // division truncates toward zero (i128 `/` does too); by zero: None
             let quot = if f == 0 { None } else { Some(n / f as i128) };
-            cmp_checked(r, "sd_scalar", "checked_div", if f == 0 { "rhs==0" } else { "" }, &case, guard(|| d.checked_div(f)), quot, &mut t_div);
-            cmp_panicking(r, "sd_scalar", "div(operator)", if f == 0 { "rhs==0" } else { "" }, &case, guard(|| d / f), quot, &mut scratch);
+            let class = if f == 0 { "rhs==0" } else { "" };
+            cmp_checked(r, "sd_scalar", "checked_div", class, &case, guard(|| d.checked_div(f)), quot, &mut t_div);
+            cmp_panicking(r, "sd_scalar", "div(operator)", class, &case, guard(|| d / f), quot, &mut scratch);
+            cmp_panicking(
+                r,
+                "sd_scalar",
+                "div_assign",
+                class,
+                &case,
+                guard(|| {
+                    let mut x = d;
+                    x /= f;
+                    x
+                }),
+                quot,
+                &mut scratch,
+            );
+            [t_mul[0], t_mul[1], t_div[0], t_div[1]]
+        })
+        .collect();
+    let mut t = [0u64; 4];
+    for x in tallies {
+        for k in 0..4 {
+            t[k] += x[k];
         }
     }
-    r.outcome("checked_mul_some", t_mul[0]);
-    r.outcome("checked_mul_none", t_mul[1]);
-    r.outcome("checked_div_some", t_div[0]);
-    r.outcome("checked_div_none", t_div[1]);
-    r.require(t_mul[0] > 0 && t_mul[1] > 0 && t_div[0] > 0 && t_div[1] > 0, "mul/div both succeed and fail on the pool");
+    r.outcome("checked_mul_some", t[0]);
+    r.outcome("checked_mul_none", t[1]);
+    r.outcome("checked_div_some", t[2]);
+    r.outcome("checked_div_none", t[3]);
+    r.require(t[0] > 0 && t[1] > 0 && t[2] > 0 && t[3] > 0 && derived > 0, "mul/div both succeed and fail on the pool");
 }
 
 /// Unit constructors.
@@ -325,7 +472,7 @@ pub fn unary(r: &Report) {
     r.outcome("abs_panic", t_abs[1]);
     r.outcome("checked_neg_some", t_neg[0]);
     r.outcome("checked_neg_none", t_neg[1]);
-    r.require(t_neg[0] > 0 && t_neg[1] > 0, "negation both succeeds and overflows");
+    r.require(t_neg[0] > 0 && t_neg[1] > 0 && t_abs[0] > 0 && t_abs[1] > 0, "negation and abs both succeed and overflow");
 }
 
 /// std::time::Duration <-> SignedDuration.
@@ -386,4 +533,91 @@ pub fn std_conv(r: &Report) {
     r.outcome("std_conv_ok", ok);
     r.outcome("std_conv_err", err);
     r.require(ok > 0 && err > 0, "std conversions both succeed and fail");
+}
+
+/// `SignedDuration::system_until(t1, t2)`: exact `t2 - t1`, an error exactly
+/// when that does not fit (never a panic). System times are built from the
+/// epoch with checked arithmetic; what the platform cannot represent is
+/// skipped and counted.
+pub fn system_until(r: &Report) {
+    use std::time::SystemTime;
+    let mut offs: Vec<i128> = vec![];
+    for s in [0i128, 1, 2, 86_400, 1 << 32, 1 << 53, 1 << 61, (1 << 62) - 1, 1 << 62, (1 << 62) + 1, (1i128 << 63) - 2, (1i128 << 63) - 1] {
+        for f in [0i128, 1, 500_000_000, 999_999_999] {
+            for sg in [1i128, -1] {
+                let n = sg * (s * NS + f);
+                if !offs.contains(&n) {
+                    offs.push(n);
+                }
+            }
+        }
+    }
+    let mk = |n: i128| -> Option<SystemTime> {
+        let d = Duration::new((n.unsigned_abs() / NS as u128) as u64, (n.unsigned_abs() % NS as u128) as u32);
+        if n >= 0 {
+            SystemTime::UNIX_EPOCH.checked_add(d)
+        } else {
+            SystemTime::UNIX_EPOCH.checked_sub(d)
+        }
+    };
+    let times: Vec<(i128, SystemTime)> = offs.iter().filter_map(|&n| mk(n).map(|t| (n, t))).collect();
+    r.outcome("system_time_points", times.len() as u64);
+    r.outcome("system_time_points_unrepresentable_on_this_platform(skipped)", (offs.len() - times.len()) as u64);
+    let (mut ok, mut err) = (0u64, 0u64);
+    for &(n1, t1) in &times {
+        for &(n2, t2) in &times {
+            let exact = n2 - n1;
+            let case = format!("t1=epoch{:+}ns t2=epoch{:+}ns", n1, n2);
+            r.add_states(1);
+            r.add_transitions(1);
+            r.add_validated(1);
+            match guard(|| SignedDuration::system_until(t1, t2).map_err(|e| e.to_string())) {
+                Err(p) => r.viol("sd_system_until", &format!("SignedDuration::system_until/{}", panic_sig(&p)), case, p),
+                Ok(Err(e)) => {
+                    err += 1;
+                    if fits(exact) {
+                        // input-derived class: a representable difference
+                        // whose whole seconds are i64::MIN (its magnitude is
+                        // not a SignedDuration)
+                        let class = if exact / NS == i64::MIN as i128 { ":result.secs==i64::MIN" } else { "" };
+                        r.viol("sd_system_until", &format!("SignedDuration::system_until/spurious-error{}", class), case, format!("jiff Err({}) | model {}", e, ds(exact)));
+                    }
+                }
+                Ok(Ok(d)) => {
+                    ok += 1;
+                    if !fits(exact) {
+                        r.viol("sd_system_until", "SignedDuration::system_until/missed-overflow", case, format!("jiff {} | model: {} ns does not fit", show(d), exact));
+                    } else if let Ok(Some(detail)) = guard(|| judge(d, exact)) {
+                        r.viol("sd_system_until", "SignedDuration::system_until/value", case, detail);
+                    }
+                }
+            }
+        }
+    }
+    r.outcome("system_until_ok", ok);
+    r.outcome("system_until_err", err);
+    r.require(ok > 0 && err > 0, "system_until both succeeds and overflows");
+}
+
+/// `From<Offset> for SignedDuration`: the offset's whole seconds.
+pub fn from_offset(r: &Report) {
+    let mut n = 0u64;
+    for secs in [0i32, 1, -1, 59, -59, 60, 3_600, -3_600, 19_800, -34_200, 93_599, -93_599, 86_400, -86_400] {
+        let case = format!("Offset::from_seconds({})", secs);
+        r.add_states(1);
+        r.add_transitions(1);
+        r.add_validated(1);
+        match guard(|| jiff::tz::Offset::from_seconds(secs).ok().map(SignedDuration::from)) {
+            Err(p) => r.viol("sd_from_offset", &format!("SignedDuration::from(Offset)/{}", panic_sig(&p)), case, p),
+            Ok(None) => {}
+            Ok(Some(d)) => {
+                n += 1;
+                if let Ok(Some(detail)) = guard(|| judge(d, secs as i128 * NS)) {
+                    r.viol("sd_from_offset", "SignedDuration::from(Offset)/value", case, detail);
+                }
+            }
+        }
+    }
+    r.outcome("from_offset_values", n);
+    r.require(n > 0, "offsets convert");
 }
